@@ -568,6 +568,16 @@ func (c *Component) handleSessionLifecycle(event events.Event) {
 				attributes[k] = v
 			}
 		}
+	case models.AccessTypeL2TP:
+		if sess, ok := data.Session.(*models.PPPoL2TPSession); ok {
+			sessionState = sess.State
+			if sess.IPv4Address != nil {
+				ipv4Address = sess.IPv4Address.String()
+			}
+			username = sess.Username
+			acctSessionID = sess.AAASessionID
+			swIfIndex = sess.IfIndex
+		}
 	case models.AccessTypeL2GW:
 		if sess, ok := data.Session.(*models.L2GWSession); ok {
 			sessionState = sess.State
